@@ -321,6 +321,25 @@ mut("c15_lifo_tag_not_incremented", "C15", "include/abti_sync_lifo.h",
             return;""")])
 mut("c15_bucket_returned_and_kept", "C15", "include/abti_mem_pool.h",
     None, None, "placeholder")
+mut("c18_sched_basic_init_leak", "C18", "sched/basic.c",
+    """    if (ABTI_IS_ERROR_CHECK_ENABLED && abt_errno != ABT_SUCCESS) {
+        ABTU_free(p_data);
+        ABTI_CHECK_ERROR(abt_errno);
+    }""",
+    """    if (ABTI_IS_ERROR_CHECK_ENABLED && abt_errno != ABT_SUCCESS) {
+        ABTI_CHECK_ERROR(abt_errno);
+    }""", "BASIC scheduler init leaks its data block when the pool array cannot be allocated")
+mut("c18_eventual_dangling_on_value_alloc_failure", "C18", "eventual.c",
+    """        if (ABTI_IS_ERROR_CHECK_ENABLED && abt_errno != ABT_SUCCESS) {
+            ABTU_free(p_eventual);
+            ABTI_HANDLE_ERROR(abt_errno);
+        }""",
+    """        if (ABTI_IS_ERROR_CHECK_ENABLED && abt_errno != ABT_SUCCESS) {
+            ABTU_free(p_eventual);
+            *neweventual = ABTI_eventual_get_handle(p_eventual);
+            ABTI_HANDLE_ERROR(abt_errno);
+        }""", "ABT_eventual_create returns a dangling handle when the value buffer cannot be allocated")
+mut("c18_thread_create_many_partial", "C18", "thread.c", None, None, "placeholder")
 mut("c01_fifo_no_second_empty_check", "C01", "pool/thread_queue.h",
     None, None, "placeholder")
 mut("c03_join_no_final_wait", "C03", "thread.c",
